@@ -24,7 +24,7 @@ def lib_cfg(contract):
 
 
 def run_contracts(run, contracts, tier, cfg_factory=lib_cfg):
-    reports = verify_many(contracts, cfg_factory, timeout_ms=tier_timeout(tier))
+    reports = verify_many(contracts, cfg_factory, timeout_ms=tier_timeout(tier), include_slow=(tier == 'thorough'))
     by_qual = {c.qual: c for c in contracts}
     for rep in reports:
         run.add_function_report(rep, by_qual[rep['function']], replayer=replay)
@@ -48,7 +48,7 @@ def belongs(prop, extra=()):
 
 
 def run_contracts_sel(run, contracts, tier, prop, extra=(), cfg_factory=lib_cfg):
-    reports = verify_many(contracts, cfg_factory, timeout_ms=tier_timeout(tier))
+    reports = verify_many(contracts, cfg_factory, timeout_ms=tier_timeout(tier), include_slow=(tier == 'thorough'))
     by_qual = {c.qual: c for c in contracts}
     sel = belongs(prop, extra)
     for rep in reports:
